@@ -311,7 +311,7 @@ def _check_solve(case):
     if not np.isfinite(nrm):
         res.discarded = True
         return res
-    dt = P['theta'] / max(nrm, 1e-300)
+    dt = P["theta"] / (nrm if nrm > 0 else 1.0)
     tag = f"{P['scheme']}:{name}"
     if case['closed']:
         I0 = _integral(name, phi, geo)
@@ -332,7 +332,7 @@ def _check_solve(case):
         # explicit steps, same closed problem
         m, BC, phi = problem.build_var(P)
         A, s = problem.spatial_operator(m, P)
-        dte = P['theta_explicit'] / max(nrm, 1e-300)
+        dte = P["theta_explicit"] / (nrm if nrm > 0 else 1.0)
         I0 = _integral(name, phi, geo)
         for k in range(P['steps']):
             rhs = -(A @ np.asarray(phi._value).ravel())
